@@ -976,7 +976,7 @@ func ruleParserTermination(c *Ctx, scope []*ssa.Function) {
 			c.count("parser-loops", 1)
 		}
 	}
-	c.floor("parser-loops", 2)
+	c.floor("parser-loops", 1)
 	// recursion: find functions on a static-call cycle
 	sset := scopeSet(scope)
 	calls := map[*ssa.Function][]*ssa.Call{}
